@@ -55,11 +55,15 @@ def main(argv=None):
     ap.add_argument('--tier', default=os.environ.get('VERIF_TIER', 'quick'), choices=['quick', 'thorough'])
     ap.add_argument('--replay')
     ap.add_argument('--setup', action='store_true')
+    ap.add_argument('--selftest', action='store_true')
     a = ap.parse_args(argv)
     os.chdir(common.VERIF)
     try:
         if a.setup:
             return setup()
+        if a.selftest:
+            from . import selftest
+            return selftest.run()
         reg = registry()
         if a.pid not in reg:
             print(f'unknown property {a.pid}; known: {sorted(reg)}')
